@@ -191,6 +191,20 @@ def log_family(tier, seed):
                             msgs.append('flatten(%r): %d rows, steps %r; model gives steps %r' % (style, len(got), got.Step.tolist(), want[:, 0].astype(int).tolist()))
                         elif style != 'all' and len(set(got.Step.tolist())) != len(got):
                             msgs.append('flatten(%r) repeats a timestep' % style)
+                # a restarted middle run (reset_timestep): steps 0..1000, 0..500, 500..1500 -- the earliest/latest run must win per timestep
+                if nruns == 3 and not truncated:
+                    parts, mods = [], []
+                    for (st, nr) in ((0, 11), (0, 6), (500, 11)):
+                        t_, m_ = synth_run(rng, KEYSETS[0], st, nr, 100, banner, timing, False)
+                        parts.append(t_)
+                        mods.append(m_)
+                    log3 = am.lammps.Log('LAMMPS (29 Oct 2020)\n' + ''.join(parts))
+                    check_sims(log3.simulations, mods, msgs, tag='restart log: ')
+                    for style in ('first', 'last', 'all'):
+                        got = log3.flatten(style).thermo
+                        want = np.array(flatten_model(mods, style), dtype=float)
+                        if got.shape != want.shape or not np.allclose(got.values.astype(float), want, atol=1e-9):
+                            msgs.append('restart log: flatten(%r) steps %r; model gives %r' % (style, got.Step.tolist(), want[:, 0].astype(int).tolist()))
                 if len(samples) < 1:
                     samples.append({'case': key, 'log_head': text[:300]})
             except Exception as e:
